@@ -13,7 +13,7 @@ Ideal layer: Expected(history).
      AppendOnly; -coverage once (no action may be dead); -simulate for long
      histories.
   2. TLC with each *open* deviation switched on must produce its counterexample.
-  3. Direction A: TLC prints every history (<= 4 quick, <= 6 thorough, plus
+  3. Direction A: TLC prints every history (<= 4 quick; thorough <= 5, and 6 from an empty file; plus
      simulated long ones) with the model's observation after every step; the Go
      harness internal/verif/c16 replays them on the real filesystem against the
      real Tailer + fileStream (barriers: a waker.Waker with exact accounting and
@@ -34,7 +34,7 @@ META = {
     "text": "TLC exhausts spec/FileStream.tla (fileStream.stream loop branches + LineReader + TailPath/doPatternGlob over a "
             "path->inode->bytes filesystem) against Expected(history) for every history of <=5 (thorough 7) operations over "
             "{line, fragment, CRLF line, truncate, rename+create (empty / with a first line), copy+truncate, delete, recreate, nop} from 4 initial file "
-            "states, and every history of <=4 (thorough 6) operations plus simulated 40-operation ones is replayed on the real "
+            "states, and every history of <=4 (thorough 5, and 6 from an empty file) operations plus simulated 40-operation ones is replayed on the real "
             "filesystem against the real Tailer/fileStream with deterministic waker barriers, comparing delivered lines, "
             "logstreams, goroutine counts and expvar counters after every step.",
     "note": "Premise of the property is built in: each operation is observed (one stream wake + one pattern poll) before the "
@@ -222,16 +222,19 @@ def _classify(ctx, binary, mism, opendevs, what):
         ctx.violation_count = getattr(ctx, "violation_count", 0) + len(unexplained) - 8
 
 
-def _witnesses(ctx, binary, opendevs):
+def _witnesses(ctx, binary, opendevs, departs, covered):
     """Re-execute the witness of every open finding: the real code must still depart from the corrected
-    specification there and agree with the specification with exactly that deviation on."""
+    specification there and agree with the specification with exactly that deviation on.
+    departs: key -> mismatch record of the bulk replay; covered(script) says whether the bulk replay ran it."""
     ents = {d: vlib.open_finding(ctx.prop, d) for d in opendevs}
     scripts = {d: {"pre": e["witness"].get("pre", "empty"), "ops": list(e["witness"]["ops"])} for d, e in ents.items()}
     if not scripts:
         return
     n0 = ctx.cov["traces_validated_against_impl"]
-    ideal = _harness(ctx, binary, _scripted(ctx, list(scripts.values()), (), "witness-ideal"), "witnesses")
-    departs = {key(m["case"]): m for m in ideal}
+    extra = [sc for sc in scripts.values() if not covered(sc)]
+    if extra:
+        for m in _harness(ctx, binary, _scripted(ctx, extra, (), "witness-ideal"), "witnesses"):
+            departs[key(m["case"])] = m
     for d, sc in scripts.items():
         ent = ents[d]
         k = sc["pre"] + ":" + ",".join(sc["ops"] + ["stop"])
@@ -243,7 +246,7 @@ def _witnesses(ctx, binary, opendevs):
             vlib.log("open finding %s: the witness no longer departs from the corrected specification" % d)
         else:
             vlib.log("open finding %s: the witness is not explained by the deviation alone: %s" % (d, m2[0]["why"]))
-    ctx.cov["traces_validated_against_impl"] = n0 + len(scripts)
+    ctx.cov["traces_validated_against_impl"] = n0 + len(extra)
 
 
 def run(ctx):
@@ -257,29 +260,36 @@ def run(ctx):
     model_ops = 7 if ctx.thorough else 5
     r = vlib.tlc(ctx, "FileStream", _cfg(model_ops, view=True), label="FileStream-ops%d" % model_ops, timeout=2400,
                  heap="12g" if ctx.thorough else None)
-    vlib.tlc(ctx, "FileStream", _cfg(40, view=True, minops=40, props=False),
-             simulate=2000 if ctx.thorough else 200, depth=500, seed=ctx.seed, label="FileStream-sim40", timeout=900)
+    if ctx.thorough:      # (quick: the simulated histories emitted for replay below are checked against the same invariants)
+        vlib.tlc(ctx, "FileStream", _cfg(40, view=True, minops=40, props=False),
+                 simulate=2000, depth=500, seed=ctx.seed, label="FileStream-sim40", timeout=900)
     # 2. every open deviation really breaks the property in the model
     for d in opendevs:
         vlib.expect_dev_counterexample(ctx, "FileStream", _cfg(4, (d,), invs=["NeverWrong", "ExactlyOnce"]), d, timeout=600)
 
     # 3. replay on the real filesystem
-    _witnesses(ctx, binary, opendevs)
     shards = 4 if ctx.thorough else 2
     seen = set()
     total = 0
-    # (bound, initial states): all four initial states up to the first bound; thorough adds one more operation
-    # for the two initial states in which the very first operations already matter (empty file, pending fragment)
-    plan = [(5, PRE, 0), (6, ["empty", "frag"], 6)] if ctx.thorough else [(4, PRE, 0)]
+    departs = {}
+    # (bound, initial states, least length): all four initial states up to the first bound; thorough adds every
+    # history of exactly one more operation from the plain initial state (an empty file)
+    plan = [(5, PRE, 0), (6, ["empty"], 6)] if ctx.thorough else [(4, PRE, 0)]
     replay_ops = plan[-1][0]
     for bound, pre, least in plan:
         what = "histories of %d..%d operations from %s" % (least, bound, "/".join(pre))
         em = _emit(ctx, bound, "ops%d" % bound, shards, pre=pre, minops=least)
         for c in em.first[:2]:
             ctx.sample({"history": render(c), "expected_lines_per_step": [o["lines"] for o in c["obs"]]})
-        _classify(ctx, binary, _harness(ctx, binary, em, what), opendevs, "histories <= %d" % bound)
+        mism = _harness(ctx, binary, em, what)
+        if least == 0:
+            departs.update({key(m["case"]): m for m in mism})
+        _classify(ctx, binary, mism, opendevs, "histories <= %d" % bound)
         seen |= em.nontrivial
         total += em.n
+    first_bound, first_pre = plan[0][0], plan[0][1]
+    _witnesses(ctx, binary, opendevs, departs,
+               lambda sc: len(sc["ops"]) <= first_bound and sc["pre"] in first_pre and set(sc["ops"]) <= set(OPS))
     # long simulated histories
     sim = _emit(ctx, 40, "sim40", shards, simulate=1500 if ctx.thorough else 150, seed=ctx.seed * 31 + 5)
     if sim.first:
